@@ -57,6 +57,16 @@ class PurgeAppTask(BaseEvolutionTask):
                 app_label=self.app_label)
             app_mutator.run_mutation(mutation)
 
+            # The app is no longer installed. Once all of its models have
+            # been deleted, nothing remains to be tracked for it, so remove
+            # its (now empty) entry from the signature as well. Otherwise
+            # the app would be reported as deleted (and purgeable) forever.
+            project_sig = app_mutator.project_sig
+            app_sig = project_sig.get_app_sig(self.app_label)
+
+            if app_sig is not None and app_sig.is_empty():
+                project_sig.remove_app_sig(self.app_label)
+
             self.evolution_required = True
             self.sql = app_mutator.to_sql()
 
